@@ -88,7 +88,31 @@ pub fn act_flashloan(sim: &mut Sim, ctx: &mut Ctx) -> Option<Tx> {
     ixs.extend(inner);
     ixs.push(ix::end_flashloan(ma, u.authority, end_metas.clone()));
     // shape faults
-    match ctx.rng.below(16) {
+    match ctx.rng.below(18) {
+        16 => {
+            // the named "end" is a look-alike: a foreign program's instruction carrying the
+            // end_flashloan discriminator and this account first - no real end anywhere
+            ixs.pop();
+            let n = ixs.len();
+            let fake = ix::end_flashloan(ma, u.authority, vec![]);
+            ixs.push(Ix {
+                program_id: ctx.world.allowed_foreign,
+                accounts: vec![ix::ro(ma)],
+                data: fake.data.clone(),
+                wrapper: None,
+                tag: "allowed_foreign",
+            });
+            ixs[start_pos] = ix::start_flashloan(ma, u.authority, n as u64);
+            sim.stats.fault("tx_flashloan_end_is_foreign_lookalike");
+        }
+        17 => {
+            // the named "end" is another instruction of this program with the account first
+            ixs.pop();
+            let n = ixs.len();
+            ixs.push(ix::pulse_health(ma, end_metas.clone()));
+            ixs[start_pos] = ix::start_flashloan(ma, u.authority, n as u64);
+            sim.stats.fault("tx_flashloan_end_is_other_marginfi_ix");
+        }
         11 => {
             // an end that closes nothing: no start at all (optionally keep harmless inner ixs out)
             ixs.truncate(start_pos);
@@ -493,6 +517,25 @@ pub fn act_bracket(sim: &mut Sim, ctx: &mut Ctx, kind: BracketKind) -> Option<Tx
             // a second end after the bracket has been closed
             ixs.push(end.clone());
             sim.stats.fault("tx_bracket_duplicate_end");
+        }
+        17 => {
+            // the last instruction is a foreign look-alike of the end (same data, same accounts)
+            let n = ixs.len();
+            let mut fake = end.clone();
+            fake.program_id = ctx.world.allowed_foreign;
+            fake.tag = "allowed_foreign";
+            for m in fake.accounts.iter_mut() {
+                m.is_signer = false;
+                m.is_writable = false;
+            }
+            ixs[n - 1] = fake;
+            sim.stats.fault("tx_bracket_end_is_foreign_lookalike");
+        }
+        18 => {
+            // the last instruction is another instruction of this program on the same account
+            let n = ixs.len();
+            ixs[n - 1] = ix::pulse_health(target, rm.clone());
+            sim.stats.fault("tx_bracket_end_is_other_marginfi_ix");
         }
         13 => {
             // a third party (not the receiver) signs the end
